@@ -1041,6 +1041,7 @@ func c12More(p *load.Prog, r *oblig.Run) {
 	c12Identity(p, r)
 	c12DateDistance(p, r)
 	c12Convex(p, r)
+	c12UsedMarks(p, r)
 	bitMarks(p, r, "R12.l")
 	c12Weights(p, r)
 	r.Rule("R12.c", "the greedy matching in IndividualNodes.Similarity orders equal scores deterministically (stable sort)", 1)
